@@ -3,7 +3,7 @@
     there is no [Extract Constant].  The number type is a type parameter: the driver
     supplies OCaml floats. *)
 From Coq Require Import ExtrOcamlBasic.
-From GS Require Import Num EventLoop Kernel Geo Sim Script Mission Dispatcher RandomTrip Camera.
+From GS Require Import Num EventLoop Kernel Geo Sim Script Mission Dispatcher RandomTrip Camera Interop.
 Extraction Language OCaml.
 Extraction "model.ml"
   mkArith sqdist
@@ -12,4 +12,4 @@ Extraction "model.ml"
   haversine geo_to_cartesian
   sim_hooks sim_start
   script_react counters0
-  m_init m_run d_init d_run t_init t_run take_picture.
+  m_init m_run d_init d_run t_init t_run take_picture interop_session ext_behaviour.
